@@ -24,8 +24,8 @@ ASSUMPTIONS = ["members added to a class after decoration and C-implemented desc
 
 COS = [(True, False), (False, True), (True, True), (False, False)]    # (the last: the EMPTY check_on flag - only the constructor checks it)
 NAMES = ["pub", "_prot", "__priv", "__len__", "__call__", "__eq__", "__getattr__", "__repr__", "__str__", "prop", "_prot_prop",
-         "static", "classm", "wo_prop", "__unm", "__delattr__", "__getitem__", "__contains__", "__setattr__"]
-KIND = {"__delattr__": "function", "__getitem__": "function", "__contains__": "function", "alias_pub": "function", "__radd__": "function", "static0": "staticmethod", "classm0": "classmethod", "apub": "function", "__unm": "function", "pub": "function", "other_pub": "function", "_prot": "function", "__priv": "function", "__len__": "function",
+         "static", "classm", "wo_prop", "__unm", "__delattr__", "__getitem__", "__contains__", "_odd__", "odd__", "_odd_prop__", "__setattr__"]
+KIND = {"_odd__": "function", "odd__": "function", "_odd_prop__": "property", "__delattr__": "function", "__getitem__": "function", "__contains__": "function", "alias_pub": "function", "__radd__": "function", "static0": "staticmethod", "classm0": "classmethod", "apub": "function", "__unm": "function", "pub": "function", "other_pub": "function", "_prot": "function", "__priv": "function", "__len__": "function",
         "__call__": "function", "__eq__": "function", "__getattr__": "function", "__repr__": "function", "__str__": "function",
         "prop": "property", "_prot_prop": "property", "wo_prop": "property", "ro_prop": "property", "ro_prop_setter": "property", "static": "staticmethod", "classm": "classmethod", "__setattr__": "function"}
 REALNAME = {"__priv": "_L0__priv"}
@@ -188,7 +188,7 @@ def spec(case, mo, io):
         if n in ("prop_set", "wo_prop", "ro_prop_setter") and setattr_guarded:
             exp = sa + sa
         elif n in ("pub", "other_pub", "__len__", "__call__", "__eq__", "__getattr__", "__str__", "prop", "prop_set", "wo_prop",
-                   "ro_prop", "ro_prop_setter", "apub", "alias_pub", "__radd__", "__delattr__", "__getitem__", "__contains__"):
+                   "ro_prop", "ro_prop_setter", "apub", "alias_pub", "__radd__", "__delattr__", "__getitem__", "__contains__", "odd__"):
             exp = (call + call) if _processed(case, src) else None
         elif n == "__setattr__":
             exp = (sa + sa) if _processed(case, n) else None
